@@ -855,3 +855,60 @@ def gen_message_capped(rng, sc, max_payload=7000, **kw):
             return mt, items
         p = 0.3 if p is None or p > 0.3 else p / 2
     return mt, [i for i in items if i.elems is None][:8]
+
+
+# ------------------------------------------------------------------------------------------------
+# copy_legal into ANOTHER message type (C02 ordering clause + C11 transfer clause; missed seed C02-3)
+
+def gen_xcopy(rng, sc, n):
+    """`xcopy <target type> M=<source> items`: a message is built, its body is copy_legal'ed into a fresh message of a different
+    type, the target is encoded.  Sources without repeating groups (the whole expected rendering is known) and with groups."""
+    lines, meta = [], {}
+    types = [m[0] for m in sc['msgs']]
+    tags_of = {m[0]: {t[0] for t in m[1]} for m in sc['msgs']}
+    for i in range(n):
+        for _ in range(60):
+            mt, items = gen_message(rng, sc, p_opt=rng.choice((0.4, 0.8, 1.0)), with_data=False)
+            body = [x for x in items if x.sec == 'b']
+            if i % 3 and any(x.elems is not None for x in body):
+                continue
+            # a target that shares at least three body tags with the source
+            # (a repeating group of the source that is also legal in the target is left out: the two types may define the group
+            # differently, and an element copied without the target's first field is the caller's doing, not the encoder's)
+            gtags = {x.tag for x in body if x.elems is not None}
+            cands = [t for t in types if t != mt and len(tags_of[t] & {x.tag for x in body}) >= 3 and not (tags_of[t] & gtags)]
+            if cands:
+                break
+        else:
+            continue
+        tmt = rng.choice(cands)
+        l = 'xcopy %s %s' % (hx(tmt), spec_line('x', mt, items, rng)[2:])
+        lines.append(l)
+        meta[l] = (mt, tmt, items)
+    return lines, meta
+
+
+def xcopy_oracle(sc, meta):
+    def oracle(line, out):
+        if line not in meta:
+            return (None, None)
+        mt, tmt, items = meta[line]
+        if not out.startswith('xcopy='):
+            return (False, None)
+        wire = unhx(out.split()[0][6:])
+        probs = wire_problems(sc, tmt, wire)          # frame, BodyLength, CheckSum, section order, POSITION ORDER of the target type, group shape
+        ttr = {t[0]: t for t in [m for m in sc['msgs'] if m[0] == tmt][0][1]}
+        body = [x for x in items if x.sec == 'b']
+        legal = [x for x in body if x.tag in ttr]
+        if not any(x.elems is not None for x in body):
+            # no groups: the target must be exactly the legal fields, in the target's position order
+            ref, _ = ref_encode(sc, tmt, legal)
+            if ref != wire and len([x for x in legal if eff_pos(ttr[x.tag]) == 0]) < 2:
+                probs.append('target differs from the position-ordered rendering of the legal source fields')
+        else:
+            for x in legal:
+                if x.elems is None and (b'\x01%d=' % x.tag + x.val + b'\x01') not in wire:
+                    probs.append('legal field %d missing from the target' % x.tag)
+        return (not probs, None)
+    return oracle
+
